@@ -60,8 +60,8 @@ structure St where
   a : Option Sk := none
   b : Option Sk := none
 
-def build (p start n : Nat) : Option Sk :=
-  match H.new p 21 with
+def build (p start n : Nat) (k : Nat := 21) : Option Sk :=
+  match H.new p k with
   | .ok h => some { h := addRange h start n, ranges := [(start, n)] }
   | .error _ => none
 
@@ -136,6 +136,15 @@ def stepC18 (st : St) (ws : List String) : St × Resp :=
       let nz := nzOf s.h
       (if w == "A" then { st with a := some s } else { st with b := some s }, { model := s!"nz={nz}" })
     | none => (st, { model := "none" })
+  | [w, p, start, n, k] =>
+    -- `A <p> <start> <n> <k>` / `B …`: a new sketch with `new(p, k)`
+    let sk := build p.toNat! start.toNat! n.toNat! k.toNat!
+    let nz := match sk with
+      | some s => nzOf s.h
+      | none => 0
+    if w == "A" then ({ st with a := sk }, { model := s!"nz={nz}" })
+    else if w == "B" then ({ st with b := sk }, { model := s!"nz={nz}" })
+    else (st, { model := "bad-op" })
   | ["upd", w, _api, _num, start, n] =>
     -- `mh.update(&mut hll)`: the MinHash keeps every hash of the range (scaled = 1, or num ≥ n), and
     -- `update` is `add_hash` over its mins (`H.update`; the order is irrelevant, `Sourmash.C17.order_independent`)
@@ -185,8 +194,23 @@ def stepC18 (st : St) (ws : List String) : St × Resp :=
       (st, { model := if ok then "within" else "outside", spec := "within" })
     | none => (st, { model := "none" })
   | [op, w] =>
-    if !(op == "mrg" || op == "mrgffi") then (st, { model := "bad-op" }) else
     let (dst, src) := if w == "A" then (st.a, st.b) else (st.b, st.a)
+    if op == "mrgx" || op == "mrgxffi" then
+      -- a merge that may be refused.  Model: `H.merge` (`check_compatible` first).  Spec: sketches of
+      -- different k / different precision are refused - and the receiver, which the model state keeps
+      -- as it is, is judged by every later estimate op against its unchanged true set
+      match dst, src with
+      | some d, some s =>
+        let spec := if d.h.ksize != s.h.ksize then "err MismatchKSizes"
+          else if d.h.p != s.h.p then "err MismatchNum" else "-"
+        match d.h.merge s.h with
+        | .ok h =>
+          let d : Sk := { h := h, ranges := d.ranges ++ s.ranges, extra := sortedSet (d.extra ++ s.extra) }
+          (if w == "A" then { st with a := some d } else { st with b := some d }, { model := s!"ok nz={nzOf h}", spec := spec })
+        | .error e => (st, { model := "err " ++ e.name, spec := spec })
+      | _, _ => (st, { model := "none" })
+    else
+    if !(op == "mrg" || op == "mrgffi") then (st, { model := "bad-op" }) else
     match dst, src with
     | some d, some s =>
       match d.h.merge s.h with
